@@ -32,11 +32,11 @@ ASSUMPTIONS = [
 REQUIRED_CLASSES = ["negative-step", "repeats", "empty-selection", "select-select-concat", "replace-then-select", "select-then-replace",
                     "crlf", "noncanonical-int", "unmodified", "modified", "observed-then-continued", "write-and-rows", "same-length-permutation", "typed-info", "typed-info-read-and-replace",
                     "bam", "bam-write-selection", "bam-observe-after-write", "bam-get-then-write", "bam-same-length-permutation", "attribute-assignment-on-a-selection-then-observation"]
-BOUNDS = {"quick": "500 (file, program) pairs for each of 9 text format variants, up to 10 records, programs of up to 6 steps; 400 BAM pairs of up to 6 records",
+BOUNDS = {"quick": "500 (file, program) pairs for each of 10 text format variants, up to 10 records, programs of up to 6 steps; 400 BAM pairs of up to 6 records",
           "thorough": "10000 pairs per text format, up to 30 records, programs of up to 8 steps; 9600 BAM pairs of up to 16 records"}
 BUDGET_S = {"quick": 200, "thorough": 1500}
 
-FMTS = ["bed3", "bed6", "narrowpeak", "vcf", "vcf-typed", "sam", "fastq", "fasta2", "gtf"]
+FMTS = ["bed3", "bed6", "narrowpeak", "vcf", "vcf-typed", "sam", "fastq", "fasta2", "gtf", "gfa"]
 
 # replaceable fields: name -> (column index in the record, kind)
 REPL = {
@@ -47,6 +47,7 @@ REPL = {
     "sam": {"name": (0, "id"), "flag": (1, "int"), "position": (3, "int"), "cigar": (5, "str"), "sequence": (9, "str")},
     "fastq": {"name": (0, "id"), "sequence": (1, "str"), "quality": (2, "qual")},
     "fasta2": {"name": (0, "id"), "sequence": (1, "str")},
+    "gfa": {"name": (0, "id"), "sequence": (1, "str")},
     "gtf": {"chromosome": (0, "id"), "start": (3, "int"), "source": (1, "str"), "strand": (6, "strand")},
 }
 
@@ -325,6 +326,10 @@ def check_table(case, table, model, replaced_cols, which, exact=True):
         if fmt.name == "sam":
             src = src[:11] + ([src[11]] if len(src) > 11 and src[11] else [])
             got = got[:11] + (["\t".join(got[11:])] if len(got) > 11 and "".join(got[11:]) else [])   # an empty tags field may be written as a trailing tab
+        if fmt.name == "gfa":
+            if got[:1] != ["S"]:
+                return [Failure("C04:modified-record-type-column:gfa", {"row": i, "actual": got, "which": which})]
+            got = got[1:]
         if fmt.kind == "fastq":
             src = [src[0], src[1], src[2], "@+"]
         if fmt.kind == "fasta2":
